@@ -88,10 +88,11 @@ PROPS["C05"] = dict(
                 "Rule action selection, ControlChecker.check (3 controls), ControlChangeTracker.update/changes_made, the internal CV/pump/valve status "
                 "conditions and _get_all_tank_controls are executed symbolically from the real source; the run_sim protocol contract proves that results "
                 "are saved only for a converged, stored state after which post-solve and feasibility controls ran and changed nothing (a reported step "
-                "is a fixed point of the conditional controls).",
+                "is a fixed point of the conditional controls). _run_postsolve_controls / _run_feasibility_controls are under contract (exactly the due controls "
+                "run once each in ascending priority between setting and removing the change tracker's reference point).",
     trusted_base=["np.round(x, 10) is the identity (float == R)", RT_TRUST],
     not_decided=["TankLevelCondition with a volume curve (np.interp) - not under proof", "the step converged and the trial limit was not hit (premise of the property)",
-                 "_run_postsolve_controls / _run_feasibility_controls bodies are stubs in the run_sim contract (they only call check(), sort by priority and run actions)"],
+                 ],
     assumptions=[],
 )
 PROPS["C06"] = dict(
@@ -113,10 +114,11 @@ PROPS["C16"] = dict(
                 "against contract stubs with ghost state: a failed step (after the optional backup solver) or exhausted trials stops the run - RuntimeError "
                 "iff convergence_error, otherwise warning + error_code - and nothing is saved afterwards; saved times strictly increase, lie on the report "
                 "grid and each save has exactly one time entry; the loop terminates (lexicographic variant). save_results / update_network_previous_values "
-                "are under contract (one entry per list per element).",
+                "are under contract (one entry per list per element); get_results (one row per saved time, one column per element, entries as saved; "
+                "numpy / pandas table construction modelled) and _setup_sim_options (effective report step a positive multiple of the effective hydraulic "
+                "step, never above the configured ones, options untouched) are under contract.",
     trusted_base=["aml.Model get_x/load_var_values_from_x/evaluate_residuals (C15)", "scipy.sparse.linalg.spsolve returns a vector or raises MatrixRankWarning", RT_TRUST],
-    not_decided=["results contain only finite numbers (floats are reals here)", "get_results (pandas assembly): one column per element - not yet under contract",
-                 "_setup_sim_options (report/hydraulic step normalisation) is a stub in the run_sim contract"],
+    not_decided=["results contain only finite numbers (floats are reals here)"],
     assumptions=["maxiter >= 1, bt_maxiter >= 1, max_trials >= 0, rule_timestep > 0, hydraulic_timestep >= 1"],
 )
 
